@@ -59,21 +59,28 @@ pub struct Scenario {
     pub udp_default_tc: bool,
     pub listener: &'static str,
     pub client_ip: &'static str,
+    /// a scripted prelude (no choice points): the first query's upstream is slow -- it answers nothing until the query has been
+    /// transmitted three times and then answers the first transmission (some 2 s late) -- so that the forwarder's
+    /// process-global retry timer has adapted before the remaining queries are explored; the next
+    /// query is only sent once the first has been answered
+    pub slow_first: bool,
 }
 
 pub fn scenarios() -> Vec<Scenario> {
     vec![
-        Scenario { name: "1udp", clients: vec![("udp", "q0.example")], udp_default_tc: false, listener: "::1", client_ip: "::1" },
-        Scenario { name: "2tcp", clients: vec![("tcp", "q0.example"), ("tcp", "q1.example")], udp_default_tc: false, listener: "::1", client_ip: "::1" },
-        Scenario { name: "2udp", clients: vec![("udp", "q0.example"), ("udp", "q1.example")], udp_default_tc: false, listener: "::1", client_ip: "::1" },
-        Scenario { name: "2udp-tc", clients: vec![("udp", "q0.example"), ("udp", "q1.example")], udp_default_tc: true, listener: "::1", client_ip: "::1" },
-        Scenario { name: "3tcp", clients: vec![("tcp", "q0.example"), ("tcp", "q1.example"), ("tcp", "q2.example")], udp_default_tc: false, listener: "::1", client_ip: "::1" },
-        Scenario { name: "2udp-same", clients: vec![("udp", "same.example"), ("udp", "same.example")], udp_default_tc: false, listener: "::1", client_ip: "::1" },
-        Scenario { name: "1tcp", clients: vec![("tcp", "q0.example")], udp_default_tc: false, listener: "::1", client_ip: "::1" },
+        Scenario { name: "1udp", clients: vec![("udp", "q0.example")], udp_default_tc: false, listener: "::1", client_ip: "::1", slow_first: false },
+        Scenario { name: "2tcp", clients: vec![("tcp", "q0.example"), ("tcp", "q1.example")], udp_default_tc: false, listener: "::1", client_ip: "::1", slow_first: false },
+        Scenario { name: "2udp", clients: vec![("udp", "q0.example"), ("udp", "q1.example")], udp_default_tc: false, listener: "::1", client_ip: "::1", slow_first: false },
+        Scenario { name: "2udp-tc", clients: vec![("udp", "q0.example"), ("udp", "q1.example")], udp_default_tc: true, listener: "::1", client_ip: "::1", slow_first: false },
+        Scenario { name: "3tcp", clients: vec![("tcp", "q0.example"), ("tcp", "q1.example"), ("tcp", "q2.example")], udp_default_tc: false, listener: "::1", client_ip: "::1", slow_first: false },
+        Scenario { name: "2udp-same", clients: vec![("udp", "same.example"), ("udp", "same.example")], udp_default_tc: false, listener: "::1", client_ip: "::1", slow_first: false },
+        Scenario { name: "1tcp", clients: vec![("tcp", "q0.example")], udp_default_tc: false, listener: "::1", client_ip: "::1", slow_first: false },
         // more queries in flight than the per-nameserver request channel holds (capacity 2)
-        Scenario { name: "6tcp", clients: vec![("tcp", "q0.example"), ("tcp", "q1.example"), ("tcp", "q2.example"), ("tcp", "q3.example"), ("tcp", "q4.example"), ("tcp", "q5.example")], udp_default_tc: false, listener: "::1", client_ip: "::1" },
-        Scenario { name: "4udp-tc", clients: vec![("udp", "q0.example"), ("udp", "q1.example"), ("udp", "q2.example"), ("udp", "q3.example")], udp_default_tc: true, listener: "::1", client_ip: "::1" },
-        Scenario { name: "mixed", clients: vec![("udp", "q0.example"), ("tcp", "q1.example"), ("udp", "q0.example")], udp_default_tc: false, listener: "::1", client_ip: "::1" },
+        Scenario { name: "6tcp", clients: vec![("tcp", "q0.example"), ("tcp", "q1.example"), ("tcp", "q2.example"), ("tcp", "q3.example"), ("tcp", "q4.example"), ("tcp", "q5.example")], udp_default_tc: false, listener: "::1", client_ip: "::1", slow_first: false },
+        Scenario { name: "4udp-tc", clients: vec![("udp", "q0.example"), ("udp", "q1.example"), ("udp", "q2.example"), ("udp", "q3.example")], udp_default_tc: true, listener: "::1", client_ip: "::1", slow_first: false },
+        Scenario { name: "mixed", clients: vec![("udp", "q0.example"), ("tcp", "q1.example"), ("udp", "q0.example")], udp_default_tc: false, listener: "::1", client_ip: "::1", slow_first: false },
+        // state carried from one exchange to the next (the adaptive retry timer)
+        Scenario { name: "2udp-after-slow", clients: vec![("udp", "slow.example"), ("udp", "q1.example")], udp_default_tc: false, listener: "::1", client_ip: "::1", slow_first: true },
     ]
 }
 
@@ -92,6 +99,7 @@ struct Item {
     rest: Option<Vec<u8>>, // second part of a partially delivered TCP frame
     seq: usize,
     owner: usize, // client query this upstream transmission belongs to
+    seen_at: Duration, // virtual time at which the upstream saw it
 }
 
 /// What the environment did to one client query's upstream exchange (harness-side bookkeeping
@@ -229,6 +237,7 @@ fn execute_inner(sc: &Scenario) -> ExecOutcome {
         // ---- observe
         rig.pump(6);
         rig.poll_upstreams();
+        let rig_now = rig.virt_elapsed;
         let up = &mut rig.upstreams[0];
         while seen_udp < up.udp_rx.len() {
             let (b, src) = up.udp_rx[seen_udp].clone();
@@ -245,7 +254,7 @@ fn execute_inner(sc: &Scenario) -> ExecOutcome {
                     }
                     let seq = items.len();
                     let owner = owner_of(&mut exch, &clients, &m);
-                    items.push(Item { via: Via::Udp(src), query: m, done: false, held: false, rest: None, seq, owner });
+                    items.push(Item { via: Via::Udp(src), query: m, done: false, held: false, rest: None, seq, owner, seen_at: rig_now });
                 }
                 Err(e) => out.violations.push(("upstream-query-malformed".into(), format!("query sent upstream is malformed: {e}"), vec![])),
             }
@@ -261,7 +270,7 @@ fn execute_inner(sc: &Scenario) -> ExecOutcome {
                     Ok((m, _)) => {
                         let seq = items.len();
                         let owner = owner_of(&mut exch, &clients, &m);
-                        items.push(Item { via: Via::Tcp(ci), query: m, done: false, held: false, rest: None, seq, owner });
+                        items.push(Item { via: Via::Tcp(ci), query: m, done: false, held: false, rest: None, seq, owner, seen_at: rig_now });
                     }
                     Err(e) => out.violations.push(("upstream-query-malformed".into(), format!("TCP query sent upstream is malformed: {e}"), vec![])),
                 }
@@ -313,9 +322,26 @@ fn execute_inner(sc: &Scenario) -> ExecOutcome {
             Coalesced(usize, usize),
             Close(usize),
             Tick,
+            PreludeDeliver(usize),
         }
-        // default first
-        if !all_sent {
+        // scripted prelude of a slow-first scenario: no choice points until the first query is answered
+        let in_prelude = sc.slow_first && next_client >= 1 && clients[0].first_reply_at.is_none();
+        if in_prelude {
+            let act = match pending.first() {
+                None => Act::Tick,
+                Some(&p) => {
+                    // wait (answer nothing) until the query has been transmitted three times, then
+                    // answer the FIRST transmission -- by then some two seconds old
+                    let key = rd::name_str(&items[p].query.question[0].0).to_ascii_lowercase();
+                    if transmissions.get(&key).copied().unwrap_or(0) < 3 {
+                        Act::Tick
+                    } else {
+                        Act::PreludeDeliver(p)
+                    }
+                }
+            };
+            menu.push((format!("prelude:{:?}", act), Box::new(move || act.clone())));
+        } else if !all_sent {
             menu.push(("send-next-query".into(), Box::new(|| Act::SendNext)));
         } else if let Some(&p) = pending.first() {
             let kind = if sc.udp_default_tc && matches!(items[p].via, Via::Udp(_)) { "tc" } else if items[p].rest.is_some() { "rest" } else { "ok" };
@@ -324,7 +350,7 @@ fn execute_inner(sc: &Scenario) -> ExecOutcome {
             menu.push(("tick".into(), Box::new(|| Act::Tick)));
         }
         // alternatives (each is one deviation); only when something is pending
-        if !pending.is_empty() {
+        if !pending.is_empty() && !in_prelude {
             for (rank, &p) in pending.iter().take(3).enumerate() {
                 let it = &items[p];
                 let s = it.seq;
@@ -421,6 +447,26 @@ fn execute_inner(sc: &Scenario) -> ExecOutcome {
             }
             Act::Tick => {
                 rig.advance(Duration::from_millis(100));
+            }
+            Act::PreludeDeliver(p) => {
+                let it = items[p].clone();
+                let b = rd::encode(&ok_reply(&it.query, it.query.id, false), true);
+                let r = match &it.via {
+                    Via::Udp(src) => rig.upstreams[0].udp_reply(*src, &b),
+                    Via::Tcp(c) => rig.upstreams[0].conns[*c].send_frame(&b),
+                };
+                let owner = it.owner;
+                if r.is_ok() {
+                    exch[owner].usable_ok = true;
+                } else {
+                    exch[owner].lossy = true;
+                }
+                // the other transmissions of the slow query are never answered
+                for other in items.iter_mut() {
+                    if other.owner == owner {
+                        other.done = true;
+                    }
+                }
             }
             Act::Drop(p) => {
                 items[p].done = true;
@@ -712,10 +758,11 @@ pub fn explore(sc: &Scenario, root: &[usize], bound: usize, res: &mut SubtreeRes
 fn bound_for(tier: &str, sc: &str) -> usize {
     match (tier, sc) {
         ("thorough", "1udp") => 4,
-        ("thorough", "6tcp") | ("thorough", "4udp-tc") => 2,
+        ("thorough", "6tcp") | ("thorough", "4udp-tc") | ("thorough", "2udp-after-slow") => 2,
         ("thorough", _) => 3,
         (_, "1udp") => 3,
         (_, "6tcp") | (_, "4udp-tc") => 1,
+        (_, "2udp-after-slow") => 1,
         _ => 2,
     }
 }
